@@ -75,6 +75,22 @@ CHECKS.update({
         'technique': TRACE_TECH, 'engine': 'trace-harness'},
 })
 
+CHECKS.update({
+    'C07': {
+        'category': 'other',
+        'text': 'Decided by differential twin runs: every generated program (incl. a malformed stream the database rejects, autoflush, link+unlink of one pair in one transaction, deletes of expired / partially loaded polymorphic objects) is executed with and without make_versioned and compared step by step (outcome of every step; application tables wherever a database transaction ends); an exception coming out of sqlalchemy_continuum that the twin does not raise is a violation; after remove_versioning() further work must create no versioning rows, leave no listener and no manager state. The Lean contribution is only the model-level lemma c07_appData_step / c07_live_independent(_run): the model has no write path from versioning state to application data.',
+        'note': COMMON_NOTE + 'PARTIAL by nature: the property is relational over two runs of Python code; a theorem about the model cannot exhibit an exception raised by listener code. continuum turns active_history on, which may move an autoflush to an earlier step: tables are therefore compared at transaction ends, not after every step.',
+        'technique': 'differential twin execution (with / without versioning) + Lean model-level non-interference lemma', 'engine': 'twin-harness'},
+    'C09': {
+        'text': 'Theorems c09_projection (for ANY number of sessions on connections of their own and ANY interleaving, what the manager holds for a connection equals the solo run of that connection\'s events - by induction over the interleaved list), c09_frame (an event touches only its own connection\'s state, its session\'s registration, and closed connections), c09_quiescent (when every connection\'s last event ended its transaction no unit of work and no registration is left); c09_shared_connection_counterexample shows what goes wrong when two sessions share one connection. Tied to manager.py by schedules on the real code: k in {2,3} sessions on own SQLite databases sharing the global manager, every step compared with the manager model, final per-session tables compared with solo runs, plus sequential connection re-use.',
+        'note': TRACE_NOTE + ' Event-granularity interleavings only (no thread preemption inside a listener); isolation between uncommitted transactions on one database is the DBMS\'s job.',
+        'technique': 'Lean 4 theorem by induction over interleaved event lists (any k) + schedule enumeration/sampling on the real code compared with the Lean manager model', 'engine': 'schedule-harness'},
+    'C10': {
+        'text': 'Theorems c10_holds / c10_linkInv_after_commit / c10_linkInv_after_rollback / c10_linkInv_init: for every well-formed event list (links added and removed in any number of flushes, several pairs per statement, a pair changed several times) the association-version rows replay to exactly the link set the statements produce, old rows are kept, every touched link has exactly one row stamped with the new transaction whose type is that of its last change, untouched links have none; by induction after every commit of every history; with c04_links_stable_step the replay up to any past transaction is final. c10_no_error; c10_twice_counterexample states the repaired defect F-M2M formally. Tied to manager.track_association_operations / create_association_versions by trace correspondence; the live association table is read by SQL and compared with the statements replayed.',
+        'note': TRACE_NOTE + ' That the association table contains what the INSERT/DELETE statements say is DBMS semantics (checked by SQL each run).',
+        'technique': TRACE_TECH, 'engine': 'trace-harness'},
+})
+
 NOT_APPLICABLE = {}
 
 ENGINES = [
@@ -83,6 +99,8 @@ ENGINES = [
     {'name': 'config-harness', 'path': 'harness/props/c12.py', 'serves_properties': ['C12'], 'kind_free_text': 'samples configurations, serialises the real MetaData, compares with the Lean derivation, generates kernel-checked Lean obligations'},
     {'name': 'rel-harness', 'path': 'harness/props/c04.py', 'serves_properties': ['C04'], 'kind_free_text': 'fills parent/child/association version tables or runs histories, reads every reflected relationship, compares with the Lean criteria and a snapshot reconstruction'},
     {'name': 'fault-harness', 'path': 'harness/props/c06.py', 'serves_properties': ['C06'], 'kind_free_text': 'statement-boundary fault injection, rollback variants, savepoint placements, kill runs in a child process'},
+    {'name': 'twin-harness', 'path': 'harness/props/c07.py', 'serves_properties': ['C07'], 'kind_free_text': 'runs every program with and without make_versioned and compares outcomes and application tables'},
+    {'name': 'schedule-harness', 'path': 'harness/props/c09.py', 'serves_properties': ['C09'], 'kind_free_text': 'k sessions on own connections sharing the global manager, interleaved by sampled/enumerated schedules'},
     {'name': 'table-harness', 'path': 'harness/props/tables.py', 'serves_properties': ['C08', 'C15', 'C16', 'C19', 'C20'], 'kind_free_text': 'fills real version tables directly, runs the real accessor/tool, compares with the Lean model'},
 ]
 
